@@ -104,7 +104,8 @@ def finish(res: Result) -> int:
         "bounds": res.bounds,
         "solver_queries": queries,
         "solver_seconds": solver_s,
-        "known_findings_hit": res.known,
+        "known_findings_hit": sorted(set(res.known)),
+        "violation_keys": sorted({(o.finding_key or o.name) for o in obs if o.status == "violated"}),
         "encoder_mismatches": res.mismatches,
         "explanation": res.extra.get("explanation", ""),
         "checker_cmd": f"./check {res.prop} --tier {res.tier}",
